@@ -61,8 +61,11 @@ def run(ctx):
                 dest = st.targets[0].id
             if t.startswith('pfile.variables['):
                 src_ = st.targets[0].id
+    from .. import paths as _paths
     for c in fills:
-        chain, dflt = getattr_chain(c.args[0]) if c.args else ([], None)
+        # the argument with temporaries substituted (a fill value looked up in several statements is the same nested lookup)
+        arg0 = _paths.subst(c.args[0], _paths.dominating_env(fn, api.stmt_of(c), keep=tuple(x for x in (dest, src_) if x))) if c.args else None
+        chain, dflt = getattr_chain(arg0) if c.args else ([], None)
         if not chain:
             ctx.violation(Finding('R-FILLSRC', RP, q, api.stmt_of(c), 'masked cells are filled with the array default instead of the '
                                   'fill value declared for the disk variable'))
@@ -82,25 +85,35 @@ def run(ctx):
             ctx.undec('R-FILLSRC', 'target of filled data', where, norm(st)[:60])
     # ---- R-FILLSET
     av = mod.func('Pseudo2NetCDF.addVariable')
-    set_def = set()
-    for st in iter_stmts(av.body):
-        if isinstance(st, ast.If):
-            t = st.test
-            if isinstance(t, ast.Call) and dotted(t.func) == 'hasattr' and len(t.args) == 2 and const_str(t.args[1]) \
-                    and any("create_variable_kwds['fill_value']" in norm(s) for s in st.body):
-                set_def.add(const_str(t.args[1]))
+    def fill_names(f):
+        """names of fill-carrying attributes the function looks up (hasattr / getattr / <keywords>.get), directly or through a loop
+        variable that runs over a tuple of constants - however the alternatives are spelled (if/elif chain or loop)"""
+        import re as _re
+        out = set()
+        loops = dict()
+        for st in iter_stmts(f.body):
+            if isinstance(st, ast.For) and isinstance(st.target, ast.Name) and isinstance(st.iter, (ast.Tuple, ast.List)) and all(const_str(e) is not None for e in st.iter.elts):
+                loops[st.target.id] = [const_str(e) for e in st.iter.elts]
+        for c in walk_expr(f):
+            if not isinstance(c, ast.Call):
+                continue
+            key = None
+            if dotted(c.func) in ('hasattr', 'getattr') and len(c.args) >= 2:
+                key = c.args[1]
+            elif isinstance(c.func, ast.Attribute) and c.func.attr in ('get', 'pop') and c.args and 'kw' in norm(c.func.value).lower():
+                key = c.args[0]
+            if key is None:
+                continue
+            names = [const_str(key)] if const_str(key) is not None else loops.get(key.id, []) if isinstance(key, ast.Name) else []
+            out |= set(n for n in names if _re.search('fill|missing', n, _re.I))
+        return out
+    set_def = fill_names(av)
     fm = ctx.src.mod('core/_files.py')
     cv = fm.func('PseudoNetCDFFile.copyVariable')
-    set_copy = set()
-    for st in iter_stmts(cv.body):
-        if isinstance(st, ast.For) and isinstance(st.iter, ast.Tuple) and any('fill_value = getattr(var, pk' in norm(s) for s in iter_stmts(st.body)):
-            set_copy = set(const_str(e) for e in st.iter.elts)
+    set_copy = fill_names(cv)
     vm = ctx.src.mod('core/_variables.py')
     mv = vm.func('PseudoNetCDFMaskedVariable.__new__')
-    set_alloc = set()
-    for st in iter_stmts(mv.body):
-        if isinstance(st, ast.For) and isinstance(st.iter, ast.Tuple) and any('fill_value = kwds.get(pk' in norm(s) for s in iter_stmts(st.body)):
-            set_alloc = set(const_str(e) for e in st.iter.elts)
+    set_alloc = fill_names(mv)
     if not set_def or not set_copy or not set_alloc:
         raise AnalysisError('construct not understood: fill attribute chains (%s %s %s)' % (set_def, set_copy, set_alloc))
     wfs = 'src/PseudoNetCDF addVariable / copyVariable / PseudoNetCDFMaskedVariable.__new__'
